@@ -26,6 +26,9 @@ def mintStepOK (cap perBlock cPrev cNow supPrev supNow holdPrev holdNow : Nat) :
   decide (holdNow = holdPrev + (cNow - cPrev)) &&
   decide (cPrev ≤ cNow)
 
+/-- a message creates nothing: total supply (per denom, as listed) before = after -/
+def txSupplyOK (before after : List Nat) : Bool := before == after
+
 /-- after n blocks from c₀ ≤ cap -/
 def mintAfterOK (cap perBlock c0 n cNow : Nat) : Bool :=
   decide (cNow = min (c0 + n * perBlock) cap)
